@@ -80,9 +80,12 @@ func DigestXapTar(r io.Reader, hash crypto.Hash, doPageHash bool) (*XapDigest, e
 
 func removeSignature(cd []byte) []byte {
 	size := len(cd)
+	if size < 10 {
+		return cd
+	}
 	var tr xapTrailer
 	_ = binary.Read(bytes.NewReader(cd[size-10:size]), binary.LittleEndian, &tr)
-	if tr.Magic == trailerMagic {
+	if tr.Magic == trailerMagic && int64(tr.TrailerSize)+10 <= int64(size) {
 		size -= int(tr.TrailerSize) + 10
 		return cd[:size]
 	}
